@@ -124,7 +124,7 @@ def main():
           "harness: tools/props/%s.py (scenario generator, observation of the real objects, printing of Gallina terms)" % pid.lower()]
     gens = [f for f in proof.get("files", []) if f.startswith("gen/")]
     if gens:
-        tb.append("definitions translated from the CURRENT source text on this run (tie T, fail-closed Python-ast translators tools/vlib/py2coq_la.py / py2coq_act.py / py2coq_nd.py / py2coq_graph.py / py2coq_mg.py / py2coq_ds.py / py2coq_staging.py / py2coq_val.py / py2coq_seed.py / py2coq_state.py / py2coq_dispatch.py / py2coq_loop.py / py2coq_fb.py / py2coq_fit.py / py2coq_compat.py (+ la_specs_legacy.py) / py2coq_val2.py / py2coq_run.py / py2coq_par.py / py2coq_ops.py / py2coq_mcall.py / py2coq_mrun.py / py2coq_mrun2.py and their preludes coq/base/GenPrelude.v, NDPrelude.v, PyColl.v, PyColl2.v, PyColl4.v, MCallPrelude.v, MRunPrelude.v, MGPrelude.v, DSPrelude.v, ValPrelude.v, SeedPrelude.v, CtxPrelude.v, PyColl3.v, LoopPrelude.v, FbPrelude.v, FitPrelude.v, ValPrelude2.v, RunPrelude.v, ParPrelude.v as the meaning of numpy / Python collections): "
+        tb.append("definitions translated from the CURRENT source text on this run (tie T, fail-closed Python-ast translators tools/vlib/py2coq_la.py / py2coq_act.py / py2coq_nd.py / py2coq_graph.py / py2coq_mg.py / py2coq_ds.py / py2coq_staging.py / py2coq_val.py / py2coq_seed.py / py2coq_state.py / py2coq_dispatch.py / py2coq_loop.py / py2coq_fb.py / py2coq_fit.py / py2coq_compat.py (+ la_specs_legacy.py) / py2coq_val2.py / py2coq_run.py / py2coq_par.py / py2coq_ops.py / py2coq_mcall.py / py2coq_mrun.py / py2coq_mrun2.py / py2coq_upd.py and their preludes coq/base/GenPrelude.v, NDPrelude.v, PyColl.v, PyColl2.v, PyColl4.v, MCallPrelude.v, MRunPrelude.v, MGPrelude.v, DSPrelude.v, ValPrelude.v, SeedPrelude.v, CtxPrelude.v, PyColl3.v, LoopPrelude.v, FbPrelude.v, FitPrelude.v, ValPrelude2.v, RunPrelude.v, ParPrelude.v as the meaning of numpy / Python collections): "
                   + ", ".join("coq/" + g for g in gens) + "; proved equal to / used by the theorems of this property")
     tb += list(getattr(mod, "TRUSTED", []))
     ev = {
